@@ -612,6 +612,66 @@ def witness_table():
         T.append((want, ptt, [_cont([]), [], [], ("struct", PT + "Identifier", {"s": "T", "upcast": ("Some", ("variant", IT + up))}), ("tags",)], ov_pt, f"({up.lower()})T m with enum T : {base.lower()}"))
     T.append(("complex_not_found", ptt, [_cont([]), [], [], ("struct", PT + "Identifier", {"s": "Missing", "upcast": "None"}), ("tags",)],
               {"::conversion::get_definer": lambda a: "None", "::conversion::get_container": lambda a: "None", "::conversion::get_related": lambda a: [], "::ParsedContainer::tags": lambda a: ("tags",)}, "member of a type that is not defined for the container's versions"))
+
+    # ---- pipeline witnesses: the per-container entry of the conversion (`parsed_container_to_container`) on whole containers, with the
+    # parts that do not validate made opaque. Whichever function implements a rule, the rule's error must be reached for the ill-formed
+    # container - so moving a check between the pre-conversion walk and the conversion itself does not matter, leaving a position out does
+    pcc = "crate::parser::types::objects::conversion::parsed_container_to_container"
+    identT = ("struct", "crate::parser::types::parsed::parsed_ty::ParsedType::Identifier", {"s": "T", "upcast": "None"})
+
+    def pd(name, ty=None):
+        d = _dfn(name, ty)
+        d[2][0][2]["used_in_if"] = ("Some", False)
+        return d
+
+    def pifs(eq, vals, members=(), else_ifs=(), els=()):
+        E = "crate::parser::types::if_statement::Equation::"
+        equation = ("struct", E + eq, {"values": list(vals)} if eq != "NotEquals" else {"value": vals[0]})
+        return ("struct", _PC + "parsed_if_statement::ParsedIfStatement", {"variable_name": "x", "equation": equation, "members": list(members), "else_ifs": list(else_ifs),
+                                                                            "else_statement_members": list(els), "original_ty": ("Some", identT)})
+
+    def pifm(*a, **k):
+        return ("variant", _PSM + "IfStatement", [pifs(*a, **k)])
+
+    def pcont(members):
+        c = _cont(members)
+        c[2]["object_type"] = ("variant", "wow_message_parser::parser::types::container::ContainerType::Struct")
+        return c
+    px = pd("x", identT)
+    for kind in ("Enum", "Flag"):
+        dk = _definer([_field("A", 1, "1"), _field("B", 2, "2")], kind)
+        ov_p = {"::create_sizes": lambda a: ("sizes",), "::conversion::parsed_tags_to_tags": lambda a: ("tags",), "::recursive_only_has_io_errors": lambda a: False,
+                "::verify_and_set_members": lambda a: (), "::conversion::size_of_fields_before": lambda a: "None", "::create_rust_object": lambda a: ("ro",),
+                "::get_objects_used_in": lambda a: [], "::Container::new": lambda a: ("container",), "::IfStatement::new": lambda a: ("ifs",),
+                "::StructMemberDefinition::new": lambda a: ("smd",), "::OptionalStatement::new": lambda a: ("opt",),
+                "::conversion::get_definer": (lambda d: (lambda a: ("Some", d)))(dk), "::get_field_ty": lambda a: identT, "::ParsedType::str": lambda a: "T",
+                "::enum_variable_used_in_separate_if_statements": lambda a: False, "::container::parsed_type_to_type": lambda a: ("ty",), "::ParsedContainer::tags": lambda a: ("tags",)}
+        good = "Equals" if kind == "Enum" else "BitwiseAnd"
+        sym = {"Equals": "==", "NotEquals": "!=", "BitwiseAnd": "&"}
+        # enumerators named by conditions in every position
+        for desc, mem, want in (
+            (f"if (x {sym[good]} A) else if (x {sym[good]} B), both declared", [px, pifm(good, ["A"], [pd("a")], else_ifs=[pifs(good, ["B"], [pd("b")])])], None),
+            (f"if (x {sym[good]} Z): Z is not an enumerator", [px, pifm(good, ["Z"], [pd("a")])], "variable_in_if_not_found"),
+            (f"if (x {sym[good]} A) else if (x {sym[good]} Z): the else-if names an enumerator that does not exist", [px, pifm(good, ["A"], [pd("a")], else_ifs=[pifs(good, ["Z"], [pd("b")])])], "variable_in_if_not_found"),
+            (f"if (x {sym[good]} A) else if (x {sym[good]} B) else if (x {sym[good]} Z): the second else-if names an enumerator that does not exist",
+             [px, pifm(good, ["A"], [pd("a")], else_ifs=[pifs(good, ["B"], [pd("b")]), pifs(good, ["Z"], [pd("c")])])], "variable_in_if_not_found"),
+            (f"missing enumerator in an if nested in an else arm", [px, pifm(good, ["A"], [pd("a")], els=[pifm(good, ["Z"], [pd("b")])])], "variable_in_if_not_found"),
+            (f"missing enumerator in an if inside an optional block", [px, _opt([pifm(good, ["Z"], [pd("a")])])], "variable_in_if_not_found"),
+        ):
+            T.append((want, pcc, [pcont(mem), [], [dk]], ov_p, f"pipeline, {kind.lower()}: {desc}"))
+        # operators in every position
+        bads = ["BitwiseAnd"] if kind == "Enum" else ["Equals", "NotEquals"]
+        werr = "enum_has_bitwise_and" if kind == "Enum" else "flag_used_as_equals_or_not_equals"
+        for bad in bads:
+            for desc, mem in (
+                (f"if (x {sym[bad]} A)", [px, pifm(bad, ["A"], [pd("a")])]),
+                (f"if (x {sym[good]} A) else if (x {sym[bad]} B)", [px, pifm(good, ["A"], [pd("a")], else_ifs=[pifs(bad, ["B"], [pd("b")])])]),
+                (f"if (x {sym[good]} A) else if (x {sym[good]} B) else if (x {sym[bad]} A)", [px, pifm(good, ["A"], [pd("a")], else_ifs=[pifs(good, ["B"], [pd("b")]), pifs(bad, ["A"], [pd("c")])])]),
+                (f"if (x {sym[bad]} A) nested in an else arm", [px, pifm(good, ["A"], [pd("a")], els=[pifm(bad, ["B"], [pd("b")])])]),
+                (f"if (x {sym[bad]} A) nested in an else-if arm", [px, pifm(good, ["A"], [pd("a")], else_ifs=[pifs(good, ["B"], [pifm(bad, ["A"], [pd("b")])])])]),
+                (f"if (x {sym[bad]} A) inside an optional block", [px, _opt([pifm(bad, ["A"], [pd("a")])])]),
+            ):
+                T.append((werr, pcc, [pcont(mem), [], [dk]], ov_p, f"pipeline, {kind.lower()}: {desc}"))
     it = _PC + "parsed_tags::ParsedTags::into_tags"
     ov = {"::ObjectTags::from_parsed": lambda args: ("tags-built",), "::into_bool": lambda args: False, "::into_bool_with_default": lambda args: False}
     T += [("object_has_both_versions", it, [_tags(["w1"], ["l1"]), "T", None, False], ov, "object with world and login versions"),
@@ -619,6 +679,10 @@ def witness_table():
           (None, it, [_tags(["w1"], []), "T", None, False], ov, "object with world versions only"),
           (None, it, [_tags([], ["l1"]), "T", None, True], ov, "object with login versions only")]
     return T
+
+
+OPTIONAL_ANCHORS = {"crate::parser::types::objects::conversion::container::check_if_statement_operators",
+                    "crate::parser::types::objects::conversion::container::validate_equation"}
 
 
 def check_witnesses(ctx, FB):
@@ -634,6 +698,8 @@ def check_witnesses(ctx, FB):
     for want, fnp, args, extra, desc in witness_table():
         fn = F.fn(fnp)
         if fn is None:
+            if fnp in OPTIONAL_ANCHORS:
+                continue  # a helper whose rule is also witnessed through the conversion entry point: it may be renamed or folded into another function
             ctx.violate("rule.witness", f"anchor|{fnp}", f"{fnp} not found (anchor disappeared)")
             continue
         n += 1
@@ -657,7 +723,7 @@ def check_witnesses(ctx, FB):
             else:
                 msg = f"the ill-formed instance `{desc}` is reported through {got} instead of {want}: the generator stops with another rule's exit status"
             ctx.violate("rule.witness", f"{fnp}|{desc}", f"{fnp.split('::')[-2]}::{fnp.split('::')[-1]}: {msg}", fn["file"], fn["line"])
-    ctx.rule("rule.witness", n, floor=52, note="validation functions interpreted on minimal ill-formed and well-formed instances (duplicate enumerator values in different spellings, duplicate member names "
+    ctx.rule("rule.witness", n, floor=100, note="validation functions interpreted on minimal ill-formed and well-formed instances (duplicate enumerator values in different spellings, duplicate member names "
              "in every nesting position, enum/flag if-operators, position of the self.size member, one variable per if condition, opcode index by name and opcode, version tags): the rule's own error function is reached exactly for the ill-formed ones")
 
 
